@@ -25,7 +25,7 @@ func init() {
 		Assumptions: []string{"bytes.Reader is the model of read/seek behaviour (a rejected negative seek keeps the position in both)", "invalid whence values and chunk sizes above the 16 MiB buffer are not driven"},
 		Batches:     func(tier string) int { return 16 },
 		Require: func(tier string) map[string]int64 {
-			return map[string]int64{"uploads_completed": 300, "script_steps": 8000, "chunk_census": 300, "suspend_resume": 60, "aborts": 30, "deletes": 30, "cleanups": 30, "buffer_crossing_uploads": 2, "negative_seeks_rejected": 100, "reads_at_eof": 300}
+			return map[string]int64{"uploads_completed": 300, "companion_files": 60, "script_steps": 8000, "chunk_census": 300, "suspend_resume": 60, "aborts": 30, "deletes": 30, "cleanups": 30, "buffer_crossing_uploads": 2, "negative_seeks_rejected": 100, "reads_at_eof": 300}
 		},
 		Run: runC18,
 	})
@@ -434,6 +434,42 @@ func c18Run(c *fw.Ctx, ctx context.Context, client lungo.IClient, r *fw.Rand, id
 		steps := 30
 		switch lifeNames[lifecycle] {
 		case "plain", "rename", "delete":
+			// companions: other multi-chunk files in the same bucket, one stored
+			// before and one after the file under test; they are downloaded
+			// before the file is deleted/renamed and must be intact afterwards
+			type comp struct {
+				id      string
+				content []byte
+			}
+			var comps []comp
+			companion := func(tag string) bool {
+				cc := c18Content(r, e.cs*r.Range(2, 4)+r.Intn(e.cs))
+				cid := fmt.Sprintf("%s-%d", tag, idx)
+				if err := e.bucket.UploadFromStreamWithID(ctx, cid, cid, bytes.NewReader(cc)); err != nil {
+					e.fail("gridfs:upload-from-stream", "UploadFromStreamWithID (companion) failed: "+err.Error())
+					return false
+				}
+				comps = append(comps, comp{cid, cc})
+				c.Count("companion_files", 1)
+				return true
+			}
+			checkComps := func() bool {
+				for _, cp := range comps {
+					if !e.census(cp.id, cp.content) || !e.downloadWhole(cp.id, cp.id, cp.content) {
+						return false
+					}
+				}
+				return true
+			}
+			withComps := r.Chance(1, 2) && e.cs*5 < 200000
+			if withComps && !companion("before") {
+				return
+			}
+			defer func() {
+				if withComps && c.Violations() == 0 {
+					checkComps()
+				}
+			}()
 			s, err := e.bucket.OpenUploadStreamWithID(ctx, id, name)
 			if err != nil {
 				e.fail("gridfs:open-upload", "OpenUploadStreamWithID failed: "+err.Error())
@@ -448,6 +484,9 @@ func c18Run(c *fw.Ctx, ctx context.Context, client lungo.IClient, r *fw.Rand, id
 				return
 			}
 			c.Count("uploads_completed", 1)
+			if withComps && (!companion("after") || !checkComps()) {
+				return
+			}
 			if !e.census(id, content) || !e.downloadWhole(id, name, content) || !e.script(r, id, content, steps) {
 				return
 			}
